@@ -678,7 +678,7 @@ _HERE = __import__('os').path.dirname(__import__('os').path.abspath(__file__))
 
 def _harness_guard(e):
     """An exception whose innermost frame is harness code must not be transported as if emd raised it."""
-    if isinstance(e, W.InjectedFault):
+    if isinstance(e, W.InjectedFault) or getattr(e, '_sim_transported', False):
         return
     if isinstance(e, W.HarnessError):
         raise e
